@@ -124,7 +124,23 @@ def _soft_table():
     return _SOFT_TABLE
 
 
+_HARD_TABLE = None
+
+
+def _hard_table():
+    global _HARD_TABLE
+    if _HARD_TABLE is None:
+        p_ = os.path.join(os.path.dirname(os.path.abspath(__file__)), "soft_roles.json")
+        try:
+            _HARD_TABLE = {tuple(x) for x in json.load(open(p_)).get("hard_roles", [])}
+        except Exception:  # noqa: BLE001
+            _HARD_TABLE = set()
+    return _HARD_TABLE
+
+
 def unrecognised(rule: str, role: str, reason: str) -> bool:
+    if (rule, _norm_role(role)) in _hard_table():
+        return False
     if (rule, _norm_role(role)) in _soft_table():
         return True
     if rule == "R-COMPAT-TABLE" and role == "evaluable":
